@@ -17,7 +17,10 @@ What is translated (everything that is match-shaped or a straight-line expressio
     `if let Some(next) = offs.front()` branches and the midpoint expression                    -> Gen.qcurveArm / qcurveLoop
   * every `close_path` call inside `to_kurbo`                                                  -> Gen.emitsClose
   * `transform`: the two expressions, evaluated statement by statement (an assignment to self.x is visible to
-    later statements), structure of + and * preserved (no re-association)                     -> Gen.transform
+    later statements), structure of + and * preserved (no re-association), in BOTH build variants: statements
+    under #[cfg(feature = "kurbo")] / #[cfg(not(feature = "kurbo"))] are taken for the respective variant; a
+    delegation `kurbo::Affine::from(transform) * self.to_kurbo()` becomes `kApply (toK t) x y`
+                                                                   -> Gen.transform (kurbo build), Gen.transformPlain (default build)
   * the coefficient order of both conversions                                                 -> Gen.toK / Gen.ofK
   * kurbo's `Affine * Point` expressions                                                      -> Gen.kApply
 
@@ -51,6 +54,9 @@ def need(m, what):
 
 def norm(src):
     src = re.sub(r"//[^\n]*", "", src)
+    # statement-level feature gates are kept as markers (two build variants of `transform`), other attributes go
+    src = re.sub(r'#\[cfg\(feature = "kurbo"\)\]', " @K ", src)
+    src = re.sub(r'#\[cfg\(not\(feature = "kurbo"\)\)\]', " @N ", src)
     src = re.sub(r"#\[[^\]]*\]", "", src)
     src = re.sub(r"\s+", " ", src).strip()
     return re.sub(r" \.(?=[A-Za-z_])", ".", src)      # method chains broken over lines
@@ -434,10 +440,27 @@ def show(e):
     return ls + " * " + rs
 
 
-def gen_transform(src):
-    i = need(re.search(r"pub fn transform\(&mut self, (\w+): AffineTransform\) ", src), "transform")
-    tn = i.group(1)
-    body, _ = block_after(src, i.end() - 1)
+def split_top(txt, sep):
+    """split at `sep` outside parentheses / braces"""
+    out, depth, cur = [], 0, ""
+    for c in txt:
+        if c in "({[":
+            depth += 1
+        elif c in ")}]":
+            depth -= 1
+        if c == sep and depth == 0:
+            out.append(cur.strip())
+            cur = ""
+        else:
+            cur += c
+    if cur.strip():
+        out.append(cur.strip())
+    return out
+
+
+def eval_transform(body, tn, variant):
+    """symbolic evaluation of the statements of `transform` that exist in the build `variant` ('K' = with the kurbo
+    feature, 'N' = without): -> (lean expr of the new x, of the new y)"""
     env = {"self.x": ("a", "x"), "self.y": ("a", "y")}
 
     def atom(t):
@@ -447,11 +470,63 @@ def gen_transform(src):
         if m and m.group(1) in FIELD:
             return ("a", "t." + FIELD[m.group(1)])
         raise Anchor("transform: unknown operand " + t)
-    for s in stmts(body):
+
+    def kurbo_apply():
+        # kurbo::Affine::from(transform) * self.to_kurbo(), through the regenerated conversion and kurbo's own Mul
+        px, py = show(env["self.x"]), show(env["self.y"])
+        px = px if re.fullmatch(r"\w+", px) else "(" + px + ")"
+        py = py if re.fullmatch(r"\w+", py) else "(" + py + ")"
+        return "(kApply (toK t) %s %s)" % (px, py)
+    kur = re.escape("kurbo::Affine::from(%s) * self.to_kurbo()" % tn)
+    for s in split_top(body, ";"):
+        m = re.match(r"@([KN]) ", s)
+        if m:
+            if m.group(1) != variant:
+                continue
+            s = s[m.end():].strip()
+        if "@K" in s or "@N" in s:
+            raise Anchor("transform: feature gate inside a statement")
+        m = re.fullmatch(r"let kurbo::Point \{ x: (\w+), y: (\w+),? \} = " + kur, s)
+        if m:
+            if variant != "K":
+                raise Anchor("transform: kurbo used in the build without kurbo")
+            k = kurbo_apply()
+            env[m.group(1)], env[m.group(2)] = ("a", k + ".1"), ("a", k + ".2")
+            continue
+        m = re.fullmatch(r"let (\w+) = " + kur, s)
+        if m:
+            if variant != "K":
+                raise Anchor("transform: kurbo used in the build without kurbo")
+            k = kurbo_apply()
+            env[m.group(1) + ".x"], env[m.group(1) + ".y"] = ("a", k + ".1"), ("a", k + ".2")
+            continue
+        m = re.fullmatch(r"let \((\w+), (\w+)\) = \((.*)\)", s)
+        if m:
+            parts = split_top(m.group(3), ",")
+            if len(parts) != 2:
+                raise Anchor("transform: pair expected")
+            e1 = parse_expr(tokenize(parts[0]), atom)
+            e2 = parse_expr(tokenize(parts[1]), atom)
+            env[m.group(1)], env[m.group(2)] = e1, e2
+            continue
         m = need(re.fullmatch(r"(?:let (\w+)|(self\.[xy])) = (.*)", s), "transform statement " + s[:50])
         env[m.group(1) or m.group(2)] = parse_expr(tokenize(m.group(3)), atom)
-    o = ["def transform [Add α] [Mul α] (t : Affine α) (x y : α) : α × α :=",
-         "  (%s, %s)" % (show(env["self.x"]), show(env["self.y"])), ""]
+    return show(env["self.x"]), show(env["self.y"])
+
+
+def gen_transform(src):
+    """conversions and kurbo's apply first (a `transform` that delegates to kurbo refers to them), then `transform`
+    in both build variants: `transform` = with the kurbo feature, `transformPlain` = the default build"""
+    i = need(re.search(r"pub fn transform\(&mut self, (\w+): AffineTransform\) ", src), "transform")
+    tn = i.group(1)
+    body, _ = block_after(src, i.end() - 1)
+    variants = {v: eval_transform(body, tn, v) for v in ("K", "N")}
+    tr = []
+    for name, v, doc in (("transform", "K", "built with the `kurbo` feature"), ("transformPlain", "N", "default features (no kurbo)")):
+        tr += ["/-- `ContourPoint::transform`, %s -/" % doc,
+               "def %s [Add α] [Mul α] (t : Affine α) (x y : α) : α × α :=" % name,
+               "  (%s, %s)" % variants[v], ""]
+    o = []
 
     i = need(re.search(r"impl From<AffineTransform> for kurbo::Affine \{ fn from\((\w+): AffineTransform\) -> kurbo::Affine "
                        r"\{ kurbo::Affine::new\(\[ ?(.*?),? ?\]\) \} \}", src), "From<AffineTransform>")
@@ -477,7 +552,7 @@ def gen_transform(src):
     order = ["xScale", "xyScale", "yxScale", "yScale", "xOffset", "yOffset"]
     o += ["def ofK (k : KAffine α) : Affine α :=",
           "  { " + ", ".join("%s := %s" % (f, asg[f]) for f in order) + " }", ""]
-    return o
+    return o, tr
 
 
 KAPPLY_DEFAULT = ["def kApply [Add α] [Mul α] (k : KAffine α) (x y : α) : α × α :=",
@@ -486,7 +561,12 @@ KAPPLY_DEFAULT = ["def kApply [Add α] [Mul α] (k : KAffine α) (x y : α) : α
 
 def gen_kapply():
     """kurbo's `impl Mul<Point> for Affine` from the vendored crate the tree's Cargo.lock names"""
-    lock = open(os.path.join(REPO, "Cargo.lock")).read()
+    # the lock file is not tracked by norad's git: a scratch worktree has none, the harness copy names the same crates
+    lockp = next((q for q in (os.path.join(REPO, "Cargo.lock"), os.path.join(ROOT, "harness", "Cargo.lock"),
+                              "/repo/Cargo.lock") if os.path.exists(q)), None)
+    if lockp is None:
+        raise Anchor("no Cargo.lock")
+    lock = open(lockp).read()
     ver = need(re.search(r'name = "kurbo"\nversion = "([^"]+)"', lock), "kurbo in Cargo.lock").group(1)
     cands = glob.glob(os.path.expanduser("~/.cargo/registry/src/*/kurbo-%s/src/affine.rs" % ver))
     if not cands:
@@ -512,12 +592,13 @@ def gen_kapply():
 
 def generate():
     src = norm(open(os.path.join(REPO, "src", "glyph", "mod.rs")).read())
-    body = gen_to_kurbo(src) + [""] + gen_transform(src)
+    conv, tr = gen_transform(src)
     try:
         kap, kver = gen_kapply()
         ksrc = "kurbo %s (vendored source)" % kver
     except (Anchor, OSError, ValueError, KeyError, IndexError) as e:
         kap, ksrc = KAPPLY_DEFAULT, "default text (vendored kurbo not readable: %s)" % e
+    body = gen_to_kurbo(src) + [""] + conv + kap + [""] + tr
     out = ["import Norad.Model.C20",
            "/-! GENERATED by tools/extract_kurbo_conv.py from src/glyph/mod.rs — do not edit.",
            "    `Contour::to_kurbo`, `ContourPoint::transform` and the kurbo conversions, arm by arm as the Rust has them now;",
@@ -526,7 +607,7 @@ def generate():
            "open C20",
            "",
            "variable {α : Type}",
-           ""] + body + kap + ["", "end C20.Gen"]
+           ""] + body + ["end C20.Gen"]
     return "\n".join(out) + "\n", ksrc
 
 
